@@ -112,7 +112,7 @@ def run_flow(case):
             Rectangle.undefine_epsilon()
             random.seed(case["seed"] * 7919 + len(events))
             ev = {"stage": name, "status": "ok", "accepted": 1, "net": {"mods": [], "nets": []}, "raw": [],
-                  "alloc": NOALLOC, "compat": 1, "note": ""}
+                  "alloc": NOALLOC, "compat": 1, "note": "", "where": ""}
             events.append(ev)
             try:
                 fn()
@@ -121,6 +121,8 @@ def run_flow(case):
                     raise
                 ev["status"] = "nosolution" if _no_solution(e) else "raised"
                 ev["note"] = f"{type(e).__name__}: {str(e)[:300]}"
+                import traceback
+                ev["where"] = ">".join(fr.name for fr in traceback.extract_tb(e.__traceback__)[-3:])   # innermost 3 functions
                 return False
             try:
                 ev["net"], ev["raw"], nl = read_netlist(out_net, S)
@@ -195,10 +197,51 @@ def make_case(g, i: int, seed: int, root: str) -> dict:
 
 
 def _features(t, ev, clause):
-    kinds = sorted({m[1] for e in t["events"] if e["stage"] == "user" for m in e["net"]["mods"]} - {"soft"})
-    return {"clause": clause, "stage": ev["stage"], "edit": t["edit"], "status": ev["status"],
-            "exception": ev.get("note", "").split(":")[0] if ev["status"] == "raised" else "",
-            "user_parts": "+".join(kinds) or "none"}
+    """What identifies a failure for the known-finding matcher: the stage, the clause and the cause.
+    clause, stage, status            which clause failed after / in which stage, and how the stage ended
+    exception, where                 (status raised) exception class and the innermost three functions of its traceback
+    terminals                        "none" | "fixed" | "movable": the terminals of the user's part of the netlist
+    user_parts                       kinds of the user's modules, e.g. "block+fpin"
+    threshold                        (glbfloor) the --threshold parameter
+    fixed_moved, shift               (fixed_unmoved) kinds of the fixed modules that moved; "small" = every shift < 2 % of the die side
+    soft_centres                     (glbfloor) "unchanged_from_input" iff the next reader finds every soft module exactly where the
+                                     input netlist had it (the optimised centres are not what the written netlist conveys)
+    alloc_diff                       (alloc_compatible) "missing_modules" | "extra_modules" | "both" | "none"
+    """
+    events = t["events"]
+    l = events.index(ev)
+    user = next((e for e in events if e["stage"] == "user"), None)
+    kinds = sorted({m[1] for m in user["net"]["mods"]} - {"soft"}) if user else []
+    f = {"clause": clause, "stage": ev["stage"], "status": ev["status"],
+         "exception": ev.get("note", "").split(":")[0] if ev["status"] == "raised" else "",
+         "where": ev.get("where", ""),
+         "terminals": "movable" if "pin" in kinds else "fixed" if "fpin" in kinds else "none",
+         "user_parts": "+".join(kinds) or "none",
+         "threshold": str(json.loads(t["params"])["threshold"]) if ev["stage"] == "glbfloor" else ""}
+    prev = events[l - 1]["net"]["mods"] if l >= 1 else []
+    cur = ev["net"]["mods"]
+    if clause == "fixed_unmoved" and user:
+        base = {m[0]: m for m in user["net"]["mods"]}
+        moved, worst = set(), 0
+        for m in cur:
+            b = base.get(m[0])
+            if b and b[1] in ("block", "fpin"):
+                sh = max(abs(m[4] - b[4]), abs(m[5] - b[5])) if m[3] else CLAMP
+                if sh > 2:
+                    moved.add(b[1]); worst = max(worst, sh)
+        f["fixed_moved"] = "+".join(sorted(moved)) or "none"
+        f["shift"] = "small" if worst < 20000 else "large"
+    if ev["stage"] == "glbfloor" and ev["status"] == "ok":
+        before = {m[0]: m for m in prev}
+        soft = [m for m in cur if m[1] == "soft" and m[0] in before]
+        same = bool(soft) and all(m[3] == 1 and abs(m[4] - before[m[0]][4]) <= 2 and abs(m[5] - before[m[0]][5]) <= 2 for m in soft)
+        f["soft_centres"] = "unchanged_from_input" if same else "changed"
+    if clause == "alloc_compatible":
+        want = {m[0] for m in cur if m[2] > 0}
+        got = {s[1] for s in ev["alloc"]["shares"]}
+        f["alloc_diff"] = ("both" if want - got and got - want else "missing_modules" if want - got
+                           else "extra_modules" if got - want else "none")
+    return f
 
 
 def decide(ctx: Ctx, cases: list[dict]):
@@ -233,6 +276,7 @@ def decide(ctx: Ctx, cases: list[dict]):
     for key, v in verdicts.items():
         t, c = traces[key], meta[key]
         ctx.count(key, nontrivial=len(t["events"]) >= 3, n=0)
+        ctx.extra["modules_judged_centre_of_mass"] = ctx.extra.get("modules_judged_centre_of_mass", 0) + v.get("judged", 0)
         for (l, clause) in v["fails"]:
             ev = t["events"][l - 1]
             detail = {"stage": ev["stage"], "status": ev["status"], "note": ev.get("note", "")}
@@ -255,6 +299,21 @@ def decide(ctx: Ctx, cases: list[dict]):
                     "last_netlist": t["events"][-1]["net"]["mods"][:4]})
 
 
+def _model_check(ctx: Ctx, spec: str, cfg: str, ignore=()):
+    """tlc.model_check with the vacuity test on the FINAL coverage report (TLC also prints interim reports every
+    minute, in which late actions still have count 0)."""
+    res = tlc.run_tlc(ctx, spec, cfg, coverage=True, tag="mc")
+    ctx.states += res["distinct"]
+    ctx.transitions += res["generated"]
+    last = {}
+    for name, cnt, _d in res.get("coverage", []):
+        last[name] = cnt
+    zero = sorted(n for n, c in last.items() if c == 0 and n != "Init" and n not in ignore)
+    if zero or not last:
+        raise MachineryError(f"vacuous model: actions never taken in {spec}/{cfg}: {zero}")
+    return res
+
+
 def run(ctx: Ctx) -> int:
     root = ctx.path("flows")
     if ctx.replay:
@@ -263,7 +322,7 @@ def run(ctx: Ctx) -> int:
         decide(ctx, [c])
         return ctx.finish("model_checking", "replay of one recorded flow")
     tier = ctx.tier
-    tlc.model_check(ctx, "Pipeline", f"Pipeline_mc_{tier}", vacuity_ignore=("Emit",))
+    _model_check(ctx, "Pipeline", f"Pipeline_mc_{tier}", ignore=("Emit",))
     gen = tlc.generate(ctx, "Pipeline", f"Pipeline_gen_{tier}")
     if not gen:
         raise MachineryError("TLC generated no flows")
